@@ -191,6 +191,31 @@ def chk_mg(c):
             assert 1 <= it <= c['maxiter'] and res / res0 < 1e-6 * (1 + 1e-6), 'stopped after %r iterations with reduction %g' % (it, res / res0)
 
 
+def chk_mg_adaptive(c):
+    """one persistent HSpace driven through the history with the smoothing sets queried before every refine(): afterwards its smoothing
+    sets must be those of a freshly built space (no stale index table) and contain no Dirichlet dof; the exact solution stays a fixed point"""
+    from pyiga import solvers
+    spec = c['spec']
+    strategies = ['new', 'trunc', 'func_supp', 'cell_supp']
+    hs = hgen.build(spec, upto=0)
+    for k in range(len(spec['history'])):
+        for s_ in strategies:                       # warm the cached index tables
+            hs.indices_to_smooth(s_)
+        marked = {int(lv): set(tuple(x) for x in cells) for lv, cells in spec['history'][k].items()}
+        hs.refine(marked)
+        fresh = hgen.build(spec, upto=k + 1)
+        for s_ in strategies:
+            a = [np.asarray(x).tolist() for x in hs.indices_to_smooth(s_)]       # NB: queried before anything recomputes the Dirichlet tables
+            b = [np.asarray(x).tolist() for x in fresh.indices_to_smooth(s_)]
+            assert a == b, 'after step %d the smoothing sets (%s) of the incrementally refined space differ from a freshly built one: %r vs %r' % (k, s_, a, b)
+    if hs.bdspecs is not None:
+        inds = hs.indices_to_smooth(c['strategy'])
+        for lv in range(hs.numlevels):
+            vdd = set(fresh.dirichlet_dofs(lv).tolist())
+            S = set(np.asarray(inds[lv]).tolist())
+            assert not (S & vdd), 'level %d smoothing set of the incrementally refined space contains Dirichlet dofs %r' % (lv, sorted(S & vdd))
+
+
 def chk_twogrid(c):
     import io, contextlib
     from pyiga import solvers, bspline, assemble
@@ -249,7 +274,7 @@ def chk_iterative(c):
         assert k == np.inf, 'reported convergence after %r iterations although the residual reduction is only %g (requested %g)' % (k, hist[-1], tol)
 
 
-CHECKS = {'iterative': chk_iterative, 'gs': chk_gs, 'mg': chk_mg, 'twogrid': chk_twogrid}
+CHECKS = {'iterative': chk_iterative, 'gs': chk_gs, 'mg': chk_mg, 'mg_adaptive': chk_mg_adaptive, 'twogrid': chk_twogrid}
 
 
 def generate(tier, rng):
@@ -297,6 +322,19 @@ def generate(tier, rng):
                 if quick and k % 2:
                     continue
                 yield 'mg', {'spec': sp, 'strategy': st, 'smoother': sm, 'seed': k, 'solve': (k % 5 == 0), 'maxiter': 3 if k % 10 == 0 else 400}
+    # persistent objects: refinement on existing levels next to Dirichlet boundaries after the caches were filled
+    ad = [
+        {'dim': 1, 'p': 2, 'n': 4, 'history': [{'0': [[0]]}, {'0': [[3]]}, {'1': [[0], [1]]}, {'0': [[1]]}], 'bdspecs': [[0, 0], [0, 1]]},
+        {'dim': 1, 'p': 1, 'n': 5, 'history': [{'0': [[4]]}, {'1': [[9]]}, {'0': [[0], [1]]}], 'bdspecs': [[0, 0], [0, 1]]},
+        {'dim': 2, 'p': 2, 'n': 4, 'history': [{'0': [[0, 0]]}, {'1': [[0, 0]]}, {'0': [[3, 3]]}], 'bdspecs': [[0, 0], [0, 1], [1, 0], [1, 1]]},
+        {'dim': 2, 'p': 1, 'n': 3, 'history': [{'0': [[0, 0], [0, 1]]}, {'0': [[2, 2]]}, {'1': [[0, 0]], '0': [[2, 0]]}], 'bdspecs': [[0, 0], [1, 1]]},
+        {'dim': 2, 'p': 2, 'n': 3, 'history': [{'0': [[1, 1]]}, {'0': [[0, 0]]}, {'0': [[2, 2]]}], 'bdspecs': [[1, 0]]},
+        {'dim': 2, 'p': 2, 'n': 3, 'history': [{'0': [[1, 1]]}, {'0': [[0, 0]]}], 'bdspecs': None},
+    ]
+    for k, sp in enumerate(ad):
+        for trunc in (False, True):
+            for disp in (('inf', 1) if quick else ('inf', 1, 2)):
+                yield 'mg_adaptive', {'spec': dict(sp, truncate=trunc, disparity=disp), 'strategy': strategies[(k + int(trunc)) % 4]}
     for p in (1, 2, 3):
         for u0 in ('none', 'zeros', 'random'):
             yield 'twogrid', {'p': p, 'n': 8, 'seed': p, 'u0': u0}
